@@ -38,6 +38,13 @@ pipe_destroy(void *arg)
 {
 	nni_pipe *p = arg;
 
+#ifdef NNG_ENABLE_STATS
+	// The reaper unregisters the statistics, but the endpoint may still
+	// have been starting the pipe at that time and register them
+	// afterwards.  Nothing may stay linked into the tree once we are freed.
+	nni_stat_unregister(&p->st_root);
+#endif
+
 	p->p_proto_ops.pipe_fini(p->p_proto_data);
 	p->p_tran_ops.p_fini(p->p_tran_data);
 
